@@ -25,7 +25,7 @@ BadDescs == Flatten2([i \in DOMAIN GridSeq |->
 
 Descs == MyCases(WholeDescs \o AlongDescs \o BadDescs)
 
-D == "any,ties,zero,wide,any"
+D == "any,ties,zero,wide,offset,noffset,any"
 Build(d) ==
   CASE d[1] = "w" ->
          LET a == SymT("a", d[2])
